@@ -3,7 +3,7 @@ From LogV Require Import Base.Bytes Base.Dec Base.Utf8 Base.JsonStr Base.Json Mo
   Proofs.DecProofs Proofs.JsonProofs Proofs.EncoderProofs Proofs.LayoutProofs Proofs.TextProofs Props.C07.
 Open Scope N_scope.
 
-(* '[LEVEL][time][file:line] tag||' [ctx||] then the key=value tokens of the context fields followed by
+(* '[LEVEL][time][file:line] tag||' [escaped ctx||] then the key=value tokens of the context fields followed by
    the call's fields, joined by '||' (map-sourced entries expanded in place), then the line feed.
    Holds for every event, no hypothesis. *)
 Theorem c08_text_layout_spec : forall w e,
@@ -28,6 +28,17 @@ Theorem c08_no_break : forall kx c, wf_field kx = true ->
   In c (text_chunks kx) -> forallb ge32 c = true.
 Proof. exact text_chunk_clean. Qed.
 Print Assumptions c08_no_break.
+
+(* EXACTLY ONE LINE. Level name, file name and tag free of control bytes (they come from the level registry, the Go runtime and
+   the validated tag language); context string, field keys and field values ARBITRARY byte strings: the output is a body
+   without any byte below 0x20 followed by one line feed *)
+Theorem c08_exactly_one_line : forall w e,
+  forallb ge32 (ev_level e) = true -> forallb ge32 (ev_file e) = true -> forallb ge32 (ev_tag e) = true ->
+  wf_event e = true ->
+  (forall kx, In kx (ev_ctx_fields e ++ ev_fields e) -> forallb (fun kv : bytes * json => json_clean (snd kv)) (field_members kx) = true) ->
+  exists body, text_layout w e = body ++ [10] /\ forallb ge32 body = true.
+Proof. exact text_layout_one_line. Qed.
+Print Assumptions c08_exactly_one_line.
 
 (* file:line : in full when it fits, otherwise "..." plus its last max(W-3,0) bytes; total for every W *)
 Theorem c08_file_line : forall (w : Z) file line,
